@@ -365,6 +365,10 @@ pub struct Sim {
     /// Fault injection: the next `io_uring_enter` with GETEVENTS first posts these completions and
     /// then fails with this errno (EAGAIN, EBUSY, ENOMEM: the kernel did its work, the call failed).
     pub fail_next_enter: Option<(i32, Vec<Cqe>)>,
+    /// SQPOLL rings: the kernel thread is taken to have consumed everything published whenever
+    /// anybody enters the kernel (default). Drivers that run the kernel thread themselves (C04:
+    /// explicit consume steps) switch this off: entering does not consume anything then.
+    pub sqpoll_auto: bool,
     pub dead: bool,
     /// `Ev::Close` has been logged (the ring descriptor was found closed by a later ring call).
     pub close_logged: bool,
@@ -934,6 +938,7 @@ unsafe fn hook_setup(entries: c_uint, p: *mut c_void) -> Option<c_int> {
         enabled: flags & SETUP_R_DISABLED == 0,
         poison_free_slots: false,
         fail_next_enter: None,
+        sqpoll_auto: true,
         dead: false,
         close_logged: false,
         pbuf_unregistered_after_free: Vec::new(),
@@ -981,7 +986,9 @@ unsafe fn hook_enter(
         }
         submitted = if sim.flags & SETUP_SQPOLL != 0 {
             // The kernel thread has taken whatever was published.
-            sim.submit(u32::MAX);
+            if sim.sqpoll_auto {
+                sim.submit(u32::MAX);
+            }
             0
         } else {
             sim.submit(to_submit)
@@ -1032,7 +1039,7 @@ unsafe fn hook_enter(
         };
         let mut g = global();
         let sim = g.sims.iter_mut().rev().find(|s| s.fd == fd && !s.dead)?;
-        if sim.flags & SETUP_SQPOLL != 0 {
+        if sim.flags & SETUP_SQPOLL != 0 && sim.sqpoll_auto {
             sim.submit(u32::MAX);
         }
         sim.flush_overflow();
